@@ -7,7 +7,7 @@
    (one step = one Read+limiter wait, one Write, or the deferred closeBridge).
    External behaviour assumed (hypotheses written into the model, see Model/Pipe.v): x/time/rate's WaitN fails iff
    n > burst or the context is cancelled and otherwise only delays; a Write returns 0 <= n <= len. *)
-From TX Require Import Model.Pipe Model.PipeClose Proofs.Pipe Proofs.PipeTop Proofs.PipeBridge Proofs.PipeLife Proofs.PipeClose Proofs.SideC02 Gen.C02.
+From TX Require Import Model.Pipe Model.PipeClose Proofs.Pipe Proofs.PipeTop Proofs.PipeBridge Proofs.PipeLife Proofs.PipeClose Proofs.PipeReattach Proofs.SideC02 Gen.C02.
 
 (* ---------------- one direction in isolation: Bridge.CopyWithControl ---------------- *)
 
@@ -180,6 +180,46 @@ Theorem C02_close_order_run_exists :
   /\ closer_pc s = Some CDone.
 Proof. exact close_nonvacuous. Qed.
 Print Assumptions C02_close_order_run_exists.
+
+(* ---------------- source re-attach on a live bridge (SetSourceConnection, dynamicSourceWriter) ---------------- *)
+
+(* for every target-side read script, source-side write oracle, number of re-attaches and schedule of the copy loop with
+   the re-attaches: the bytes accepted by the source ends, read end after end in the order the ends were attached, are a
+   prefix of what the target end sent — in order, exactly once across all ends *)
+Theorem C02_reattach_stream_is_prefix :
+  forall rs ws n (sched : list nat),
+  prefix (concat (fst (reattach_run rs ws n sched))) (readable rs).
+Proof. exact reattach_stream_is_prefix. Qed.
+Print Assumptions C02_reattach_stream_is_prefix.
+
+(* after a re-attach every later target->source byte is delivered to the new end: every end that existed before the
+   SetSourceConnection step keeps exactly what it had, forever; what is delivered afterwards (to the new end first)
+   continues the target's stream exactly where it stood *)
+Theorem C02_reattach_later_bytes_go_to_new_end :
+  forall rs ws n (s1 : list nat) k (s2 : list nat),
+  nth_error (snd (reattach_run rs ws n s1)) 1 = Some (QAttach (S k)) ->
+  exists rest, rest <> [] /\
+    fst (reattach_run rs ws n (s1 ++ 1%nat :: s2)) = fst (reattach_run rs ws n s1) ++ rest /\
+    prefix (concat (fst (reattach_run rs ws n s1)) ++ concat rest) (readable rs).
+Proof. exact reattach_later_bytes_go_to_new_end. Qed.
+Print Assumptions C02_reattach_later_bytes_go_to_new_end.
+
+(* at every moment: only the current end can still change *)
+Theorem C02_reattach_old_ends_frozen :
+  forall rs ws n (s1 s2 : list nat),
+  exists rest, rest <> [] /\
+    fst (reattach_run rs ws n (s1 ++ s2)) = removelast (fst (reattach_run rs ws n s1)) ++ rest.
+Proof. exact reattach_old_ends_frozen. Qed.
+Print Assumptions C02_reattach_old_ends_frozen.
+
+(* non-vacuity: a run whose re-attach happens between two writes *)
+Theorem C02_reattach_run_exists :
+  let rs := [{| r_data := [1;2]%N; r_end := RNone |}; {| r_data := [3]%N; r_end := RNone |}; {| r_data := [4;5]%N; r_end := RFatal |}] in
+  let s := reattach_run rs [] 1 [0;0;0;1;0;0;0]%nat in
+  nth_error (snd (reattach_run rs [] 1 [0;0;0]%nat)) 1 = Some (QAttach 1) /\
+  fst s = [[1;2]; [3;4;5]]%N.
+Proof. exact reattach_nonvacuous. Qed.
+Print Assumptions C02_reattach_run_exists.
 
 (* ---------------- (4) the server forgets the tunnel ---------------- *)
 
